@@ -12,6 +12,8 @@
 -/
 import AHP.Props.C14
 import AHP.Props.C15
+import AHP.Props.TreeModels
+import AHP.Lemmas.TreeModelsNth
 namespace AHP.XPathEndToEnd
 open AHP AHP.XPath AHP.Cache
 
@@ -19,7 +21,7 @@ section
 variable {N : Type} (nm : Num N)
 
 /-- the engine as C15 sees it: texts, compiled step lists, (document, start collection) pairs, results -/
-abbrev Tree := Doc × List Nat
+abbrev Tree := XPath.Doc × List Nat
 
 def compileE (nm : Num N) : Str → Option (List (Step N)) := compileText nm
 def evalE (nm : Num N) (cs : List (Step N)) (t : Tree) : Option (List Nat) := evaluate nm t.1 cs t.2
@@ -29,30 +31,102 @@ def evalE (nm : Num N) (cs : List (Step N)) (t : Tree) : Option (List Nat) := ev
     expression (any layout `st`) whose predicates respect the three precedence levels, on a pre-order document `d` from any
     start collection, then shows: the elements the expression denotes (`specEval`) when the text compiles — and a compile
     error only if some predicate of the expression has no value on any tag. -/
-theorem query_text_after_any_history (MAX CLEAR : Nat) (h : List (Event Str Tree))
-    (st : Style) (d : Doc) (hp : PreOrder d) (ss : List (SurfStep N))
+theorem query_text_after_any_history (MAX CLEAR : Nat) (h : List (Cache.Event Str Tree))
+    (st : Style) (d : XPath.Doc) (hp : PreOrder d) (ss : List (SurfStep N))
     (hs : ∀ s ∈ ss, s.wf nm) (hw : ∀ s ∈ ss, ∀ p ∈ s.preds, P.wf 3 p.toP = true) (start : List Nat) :
-    let obs := (step (compileE nm) id (evalE nm) MAX CLEAR
-                  (exec (compileE nm) id (evalE nm) MAX CLEAR World.empty h) (.query (renderExpr st ss) (d, start))).2
+    let obs := (Cache.step (compileE nm) id (evalE nm) MAX CLEAR
+                  (Cache.exec (compileE nm) id (evalE nm) MAX CLEAR Cache.World.empty h) (.query (renderExpr st ss) (d, start))).2
     obs = .result (specEval nm d (ss.map SurfStep.toSStep) start) ∨
     (obs = .compileError ∧ ∃ s ∈ ss, ∃ p ∈ s.preds, ∀ c, evalP nm c p.toP = none) := by
   intro obs
   have hq := C15.query_after_any_history (compileE nm) id (evalE nm) (fun _ _ e => e) MAX CLEAR h
     (renderExpr st ss) (d, start)
   have ht := C14.text_evaluate_eq_denotation nm st d hp ss hs hw
-  have hobs : obs = (step (compileE nm) id (evalE nm) MAX CLEAR World.empty
+  have hobs : obs = (Cache.step (compileE nm) id (evalE nm) MAX CLEAR Cache.World.empty
       (.query (renderExpr st ss) (d, start))).2 := hq
   rw [hobs]
   cases hc : compileText nm (renderExpr st ss) with
   | some cs =>
     rw [hc] at ht
     left
-    simp [step, newExpr, State.empty, World.empty, Cache.get, dictGet, compileE, hc, evalE, ht start]
+    simp [Cache.step, Cache.newExpr, Cache.State.empty, Cache.World.empty, Cache.get, Cache.dictGet, compileE, hc, evalE, ht start]
   | none =>
     rw [hc] at ht
     right
     refine ⟨?_, ht⟩
-    simp [step, newExpr, State.empty, World.empty, Cache.get, dictGet, compileE, hc]
+    simp [Cache.step, Cache.newExpr, Cache.State.empty, Cache.World.empty, Cache.get, Cache.dictGet, compileE, hc]
+
+/-- **… on the document of ANY tree.**  The `PreOrder` hypothesis above is not an assumption about documents: the table
+    the XPath model reads is built from the tree (`TM.HN.toDoc`: one row per element in document order, `parent` = the row
+    of the parent), and `TreeModels.toDoc_isPreOrder` proves it for every tree — any size, depth, shape.  So for every
+    tree `t`, every cache history, every layout of a writable three-level expression and every start collection, the
+    query shows the denotation on `t.toDoc`. -/
+theorem query_text_on_any_tree (MAX CLEAR : Nat) (h : List (Cache.Event Str Tree))
+    (st : Style) (t : TM.HN) (ss : List (SurfStep N))
+    (hs : ∀ s ∈ ss, s.wf nm) (hw : ∀ s ∈ ss, ∀ p ∈ s.preds, P.wf 3 p.toP = true) (start : List Nat) :
+    let obs := (Cache.step (compileE nm) id (evalE nm) MAX CLEAR
+                  (Cache.exec (compileE nm) id (evalE nm) MAX CLEAR Cache.World.empty h) (.query (renderExpr st ss) (t.toDoc, start))).2
+    obs = .result (specEval nm t.toDoc (ss.map SurfStep.toSStep) start) ∨
+    (obs = .compileError ∧ ∃ s ∈ ss, ∃ p ∈ s.preds, ∀ c, evalP nm c p.toP = none) :=
+  query_text_after_any_history nm MAX CLEAR h st t.toDoc (TreeModels.toDoc_isPreOrder t).2 ss hs hw start
+
+/-- the same for a forest (the top-level elements of a multi-root document, or several detached trees) -/
+theorem query_text_on_any_forest (MAX CLEAR : Nat) (h : List (Cache.Event Str Tree))
+    (st : Style) (ks : List TM.HN) (ss : List (SurfStep N))
+    (hs : ∀ s ∈ ss, s.wf nm) (hw : ∀ s ∈ ss, ∀ p ∈ s.preds, P.wf 3 p.toP = true) (start : List Nat) :
+    let obs := (Cache.step (compileE nm) id (evalE nm) MAX CLEAR
+                  (Cache.exec (compileE nm) id (evalE nm) MAX CLEAR Cache.World.empty h) (.query (renderExpr st ss) (TM.docOfL ks, start))).2
+    obs = .result (specEval nm (TM.docOfL ks) (ss.map SurfStep.toSStep) start) ∨
+    (obs = .compileError ∧ ∃ s ∈ ss, ∃ p ∈ s.preds, ∀ c, evalP nm c p.toP = none) :=
+  query_text_after_any_history nm MAX CLEAR h st (TM.docOfL ks) (TreeModels.docOfL_isPreOrder ks).2 ss hs hw start
+
+/-- … and every entry point (parser, element, collection / list / tuple; AHP/Model/XPath.lean "Entry points") on the
+    document of any tree returns the denotation from its receiver's start collection (`C14.entry_points_denote` without
+    the `PreOrder` hypothesis). -/
+theorem entry_points_on_any_tree (st : Style) (t : TM.HN) (ss : List (SurfStep N))
+    (hs : ∀ s ∈ ss, s.wf nm) (hw : ∀ s ∈ ss, ∀ p ∈ s.preds, P.wf 3 p.toP = true) :
+    match compileText nm (renderExpr st ss) with
+    | some _ =>
+      (∀ (w : Bool) (e : ParserEntry), e ≠ .evaluate .other →
+        e.run (compileText nm) nm t.toDoc w (renderExpr st ss) = specEval nm t.toDoc (ss.map SurfStep.toSStep) (t.toDoc.rootNodes w)) ∧
+      (∀ (i : Nat) (e : TagEntry),
+        e.run (compileText nm) nm t.toDoc i (renderExpr st ss) = specEval nm t.toDoc (ss.map SurfStep.toSStep) [i]) ∧
+      (∀ (ms : List Nat) (e : CollEntry),
+        e.run (compileText nm) nm t.toDoc ms (renderExpr st ss) = specEval nm t.toDoc (ss.map SurfStep.toSStep) ms)
+    | none => ∃ s ∈ ss, ∃ p ∈ s.preds, ∀ c, evalP nm c p.toP = none :=
+  C14.entry_points_denote nm st t.toDoc (TreeModels.toDoc_isPreOrder t).2 ss hs hw
+
+/-- **"the n-th among their same-named siblings", read off the TREE.**  For every tree `t`, every element of it (an entry
+    `e` of the document-order walk) and every way of writing its blocks as `pre ++ x :: post` with `x` an element: `x` sits
+    in row `e.pos + 1 + sizeL pre` of `t.toDoc`, and a predicate whose value is the number `n` keeps `x` exactly when `n` is
+    one more than the number of element blocks in `pre` that carry `x`'s tag name (`TM.namedBefore`) — no table, no
+    `Doc.ctx`, no `isNth`: the parent's blocks and their tag names only.  (`LawfulNum`: AHP/Lemmas/XPathNum.lean.) -/
+theorem nth_on_any_tree (hl : LawfulNum nm) (t : TM.HN) {e : TM.Ent} (he : e ∈ t.walk [] 0)
+    (pre : List TM.HN) (x : TM.HN) (post : List TM.HN) (hk : e.node.kids = pre ++ x :: post) (hx : x.isEl = true) (n : Nat) :
+    keepTag nm t.toDoc (e.pos + 1 + TM.sizeL pre) (.num (nm.ofNat n)) = some (decide (TM.namedBefore x.name pre + 1 = n)) ∧
+    specPos t.toDoc (e.pos + 1 + TM.sizeL pre) = TM.namedBefore x.name pre + 1 := by
+  have h := (TM.toDoc_specPos t he pre x post hk hx).2.2
+  refine ⟨?_, h⟩
+  rw [C14.numeric_value_keeps_nth nm hl, ← h]
+  rfl
+
+/-- `<ul><li/>x<b/><li/></ul>`: the second `<li>` (row 3) is the 2nd among its same-named siblings — from the blocks
+    (one `<li>` among the three blocks before it) and from the table -/
+def listTree : TM.HN :=
+  .el 0 "ul".toList AttrState.empty false
+    [.el 1 "li".toList AttrState.empty false [], .text "x".toList, .el 2 "b".toList AttrState.empty false [],
+     .el 3 "li".toList AttrState.empty false []]
+
+example :
+    TM.namedBefore "li".toList [.el 1 "li".toList AttrState.empty false [], .text "x".toList,
+      .el 2 "b".toList AttrState.empty false []] + 1 = 2 ∧
+    specPos listTree.toDoc 3 = 2 ∧ (listTree.toDoc).map (fun r => (r.name, r.parent)) =
+      [("ul".toList, none), ("li".toList, some 0), ("b".toList, some 0), ("li".toList, some 0)] := by
+  refine ⟨by decide, by decide +kernel, by decide +kernel⟩
+
+/-- Non-vacuity of the tree versions: the table of `TreeModels.sampleHub` (`<div><p/><br/></div>`-shaped) -/
+example : (TreeModels.sampleHub.toDoc).map (fun r => (r.name, r.parent)) =
+    [("div".toList, none), ("p".toList, some 0), ("br".toList, some 0)] := by decide
 
 /-- Non-vacuity: `//div[@k = "x" or @n = "y"]/*` meets the hypotheses on the expression (writable, three-level grammar);
     pre-order documents exist for every tree (`TreeModels.toDoc_isPreOrder`). -/
@@ -66,7 +140,7 @@ example :
   · intro s hs
     simp only [List.mem_cons, List.not_mem_nil, or_false] at hs
     rcases hs with rfl | rfl
-    · simp [SurfStep.wf, tagNameOk, isNameStart, isNameChar, isAlpha, isDigit, S.wfs, S.wf, attrNameOk, strOk]
+    · simp [SurfStep.wf, tagNameOk, isNameStart, isNameChar, XPath.isAlpha, XPath.isDigit, S.wfs, S.wf, attrNameOk, strOk]
     · simp [SurfStep.wf, tagNameOk, S.wfs]
   · intro s hs p hp
     simp only [List.mem_cons, List.not_mem_nil, or_false] at hs
